@@ -608,8 +608,39 @@ def run(res, ctx):
     ]
 
 
+def replay_text(res, ctx, obj):
+    """replay of a text-layer violation: one document through parse_pdf_text and the extracted model"""
+    d = obj["text_doc"]
+    io_ = run_harness(ctx["exe"], "parsetext", [{"text": d["text"], "path": d.get("path", "doc.txt")}], nproc=1)[0]
+    mo = run_model([T.enc_text(d["text"])], nproc=1, group="etradetext")[0]
+    impl = T.canon_impl(io_, d.get("path", "doc.txt").split("/")[-1])
+    model = T.parse_model(mo)
+    if d.get("rec") is not None:
+        f = {"kind": d["kind"], "rec": d["rec"], "style": d.get("style", 0), "path": d.get("path", "doc.txt")}
+        de = T.diff(T.expected(f), impl, "printed data")
+        if de is not None:
+            res.violation("failing-input", "text layer: a document in a supported layout is not read as printed: " + de,
+                          {"text_doc": d, "actual_impl": io_})
+    if impl["status"] == "ok" and impl["kind"] == "benefits" and any(r["note"].startswith("Option Grant") for r in impl["recs"]):
+        n = eso_named_grants(d["text"])
+        if n is not None and n > len(impl["recs"]):
+            if "eso-grant-row-missing" in [k.get("id") for k in known_c19()]:
+                res.known([k["what"] for k in known_c19() if k.get("id") == "eso-grant-row-missing"][0])
+            else:
+                res.violation("failing-input", "text layer: an exercise confirmation names %d grants, %d benefits are returned and no error" % (n, len(impl["recs"])),
+                              {"text_doc": d, "actual_impl": io_})
+    dd = T.diff(model, impl)
+    if dd is not None and not res.violations:
+        res.violation("broken-correspondence", "text-layer model and parse_pdf_text differ: " + dd,
+                      {"theorem_or_projection": "etrade text layer", "text_doc": d, "actual_impl": io_}, found_input=False)
+    res.coverage.update({"evaluations": 1, "distinct_nontrivial": 1, "rule": "replay of a text-layer document", "samples": [{"outcome": impl["status"]}]})
+    return res.finish(common.check_proofs("C19"))
+
+
 def replay(res, ctx, path):
     obj = json.load(open(path))
+    if "text_doc" in obj:
+        return replay_text(res, ctx, obj)
     case = {"files": [{"path": f["path"], "kind": f["kind"], "style": f.get("style", 0), "rec": f["rec"]} for f in obj["input"]["files"]]}
     ctx.update(stats=collections.Counter(), seen=set(), samples=[], corr_diffs=[], nproc_sample=1)
     root = os.path.join(RUNROOT, "etrade-replay-%d" % os.getpid())
